@@ -237,7 +237,73 @@ Proof.
     destruct (all_ok asked) eqn:E2; [|discriminate]. auto. }
   split; [exact H5|].
   split; [|exact H7].
-  intros _. apply H6. rewrite Hph. discriminate.
+  intros _. apply H6. right. exact Hph.
+Qed.
+
+Lemma run_inv_fresh s r p a prop base rounds v ph :
+  admitted_run (Run p a prop base rounds v [] ph) = false ->
+  (prop = 0 \/ base < prop) ->
+  (ph = PhConsult -> prop <> 0) ->
+  is_Some (s_jur s !! a) ->
+  run_inv s r (Run p a prop base rounds v [] ph).
+Proof.
+  intros Hna Hb Hc Ha. unfold run_inv, quorum_of. simpl.
+  split; [constructor|].
+  split; [intros j Hj; inversion Hj|].
+  split; [intros j Hj; inversion Hj|].
+  split; [intros Hadm; rewrite Hadm in Hna; discriminate|].
+  split; [exact Hb|].
+  split; [|exact Ha].
+  intros [Hadm|Hph]; [rewrite Hadm in Hna; discriminate|auto].
+Qed.
+
+Lemma run_inv_done s r rn x lost :
+  run_inv s r rn -> (x = 0 -> r_phase rn = PhEnd 0) ->
+  run_inv s r (Run (r_pledge rn) (r_member rn) (r_prop rn) (r_base rn) (r_rounds rn) (r_snap rn)
+                   (r_asked rn) (PhDone x lost)).
+Proof.
+  intros (H1 & H2 & H3 & H4 & H5 & H6 & H7) Hx.
+  assert (Hadm : admitted_run (Run (r_pledge rn) (r_member rn) (r_prop rn) (r_base rn) (r_rounds rn)
+                   (r_snap rn) (r_asked rn) (PhDone x lost)) = true -> admitted_run rn = true).
+  { unfold admitted_run; simpl. destruct x; [|discriminate]. intros _. rewrite Hx; auto. }
+  unfold run_inv, quorum_of in *; simpl.
+  split; [exact H1|]. split; [exact H2|]. split; [exact H3|].
+  split; [intros Ha; apply H4, Hadm, Ha|].
+  split; [exact H5|]. split; [|exact H7].
+  intros [Ha|Hc]; [|discriminate]. apply H6. left. apply Hadm, Ha.
+Qed.
+
+Lemma Inv_pl_update s p ps' :
+  Inv s -> pl_inv s p ps' -> Inv (set_pl s p ps').
+Proof.
+  intros [I1 I2 I3] Hp. split; simpl; auto.
+  intros q qs Hq. destruct (decide (q = p)) as [->|Hne].
+  - rewrite lookup_insert in Hq. inversion Hq; subst. exact Hp.
+  - rewrite lookup_insert_ne in Hq by done. apply I3 in Hq. exact Hq.
+Qed.
+
+Lemma Inv_jur_add s j js' :
+  Inv s -> s_jur s !! j = None -> jur_inv js' -> Inv (set_jur s j js').
+Proof.
+  intros [I1 I2 I3] Hj Hi.
+  assert (Hmono : jmono s (set_jur s j js')).
+  { intros i is_ Hl. simpl. destruct (decide (i = j)) as [->|Hne]; [congruence|].
+    rewrite lookup_insert_ne by done. exists is_. auto. }
+  split; simpl.
+  - intros i is_ Hl. destruct (decide (i = j)) as [->|Hne].
+    + rewrite lookup_insert in Hl. inversion Hl; subst. done.
+    + rewrite lookup_insert_ne in Hl by done. eauto.
+  - intros r rn Hr. eapply run_inv_mono; eauto.
+  - intros p ps Hp k c Hres. destruct (I3 p ps Hp k c Hres) as (r & rn & ms & Hr & H1 & H2 & H3 & H4 & H5).
+    destruct (Hmono _ _ H4) as (ms' & Hms' & _ & _ & Hck & _).
+    exists r, rn, ms'. repeat split; auto. congruence.
+Qed.
+
+Lemma pl_of_inv s p : Inv s -> pl_inv s p (pl_of s p).
+Proof.
+  intros HI. unfold pl_of. destruct (s_pl s !! p) as [ps|] eqn:E; simpl.
+  - eapply inv_pl; eauto.
+  - intros k c Hr. discriminate.
 Qed.
 
 Lemma step_preserves pmax s e s' : Inv s -> step pmax s e = Some s' -> Inv s'.
@@ -247,18 +313,11 @@ Proof.
     simpl in Hs.
   - (* EGossip *) inversion Hs; subst. apply Inv_set_views. done.
   - (* EPStart *)
-    destruct (s_runs s !! r) eqn:Er; [discriminate|].
-    destruct (s_jur s !! a) eqn:Ea; [|discriminate].
+    destruct (s_runs s !! r) as [rn0|] eqn:Er; [discriminate|].
+    destruct (s_jur s !! a) as [ms|] eqn:Ea; [|discriminate].
     destruct (negb (p_done (pl_of s p)) && bool_decide (p_result (pl_of s p) = None)); [|discriminate].
     inversion Hs; subst. apply Inv_run_update; auto.
-    + unfold run_inv, quorum_of, admitted_run; simpl. repeat split; auto.
-      * constructor.
-      * intros j Hj. inversion Hj.
-      * intros j Hj. inversion Hj.
-      * discriminate.
-      * discriminate.
-      * intros H. done.
-      * rewrite Ea. eauto.
+    + apply run_inv_fresh; simpl; auto.
     + intros rn Hr. rewrite Er in Hr. discriminate.
   - (* EPFail *)
     destruct (negb (p_done (pl_of s p)) && bool_decide (p_result (pl_of s p) = None)); [|discriminate].
@@ -273,12 +332,8 @@ Proof.
     apply bool_decide_eq_true in E1.
     destruct (I2 r rn Er) as (H1 & H2 & H3 & H4 & H5 & H6 & H7).
     apply Inv_run_update; auto.
-    + unfold run_inv, quorum_of, admitted_run; simpl. repeat split.
-      * constructor.
-      * intros j Hj. inversion Hj.
-      * intros j Hj. inversion Hj.
-      * destruct (bool_decide (length (healthy v) < qsize v)%nat); discriminate.
-      * destruct (bool_decide (length (healthy v) < qsize v)%nat); discriminate.
+    + apply run_inv_fresh; simpl.
+      * unfold admitted_run; simpl. destruct (bool_decide (length (healthy v) < qsize v)%nat); done.
       * destruct (bool_decide (r_prop rn = 0)) eqn:E4.
         -- right. lia.
         -- apply bool_decide_eq_false in E4. right. destruct H5 as [H5|H5]; [done|lia].
@@ -309,47 +364,40 @@ Proof.
     { intros ok vd' s1 Hjp Hok.
       destruct (juror_process_spec _ _ _ _ _ _ Hjp) as (js & js' & Hj & -> & Hc & Hm & Ha & Hg & Hji & Hgr).
       assert (HI1 : Inv (set_jur s j js')).
-      { eapply Inv_jur_update; eauto. apply Hji. eapply I1; eauto. }
+      { eapply Inv_jur_update; eauto. }
       unfold record_answer. apply Inv_run_update; auto.
       - apply run_inv_record_answer; auto.
         + apply (inv_run _ HI1 r rn). simpl. done.
         + intros ->. destruct (Hgr (Hok eq_refl)) as (m & Hin).
           exists js', m. simpl. rewrite lookup_insert. auto. }
-    destruct how as [|hp]; [|destruct hp as [[|[]|]|[[]| |]|]]; try discriminate.
-    + (* how = 0 *)
-      destruct (juror_process s r j (r_prop rn)) as [[vd' s1]|] eqn:Ejp; [|discriminate].
+    destruct (bool_decide (how = 0) || bool_decide (how = 2)) eqn:Eh.
+    { destruct (juror_process s r j (r_prop rn)) as [[vd' s1]|] eqn:Ejp; [|discriminate].
       destruct (bool_decide (vd = vd')) eqn:Evd; [|discriminate].
       apply bool_decide_eq_true in Evd. subst vd'.
       inversion Hs; subst s'. eapply Hdeliv; eauto.
-      intros Hok. simpl in Hok. apply bool_decide_eq_true in Hok. done.
-    + (* how = 3 *)
-      destruct (s_jur s !! j); [|discriminate].
+      intros Hok. apply andb_true_iff in Hok. destruct Hok as [_ Hok].
+      apply bool_decide_eq_true in Hok. done. }
+    destruct (bool_decide (how = 1)).
+    { inversion Hs; subst s'. apply Hplain; auto. }
+    destruct (bool_decide (how = 3)).
+    { destruct (s_jur s !! j); [|discriminate].
       destruct (bool_decide (vd = VCtx)); [|discriminate].
-      inversion Hs; subst s'. apply Hplain; auto.
-    + (* how = 2 *)
-      destruct (juror_process s r j (r_prop rn)) as [[vd' s1]|] eqn:Ejp; [|discriminate].
-      destruct (bool_decide (vd = vd')) eqn:Evd; [|discriminate].
-      inversion Hs; subst s'. eapply Hdeliv; eauto.
-      intros Hok. simpl in Hok. discriminate.
-    + (* how = 4 *)
-      inversion Hs; subst s'. apply Hplain; [apply Inv_set_late; auto|done].
-    + (* how = 1 *)
-      inversion Hs; subst s'. apply Hplain; auto.
+      inversion Hs; subst s'. apply Hplain; auto. }
+    destruct (bool_decide (how = 4)); [|discriminate].
+    inversion Hs; subst s'. apply Hplain; [apply Inv_set_late; auto|done].
   - (* ELate *)
     destruct (remove_first (r, j, key) (s_late s)) as [l'|]; [|discriminate].
     destruct (juror_process (set_late s l') r j key) as [[vd' s1]|] eqn:Ejp.
     + destruct (bool_decide (vd = vd')); [|discriminate]. inversion Hs; subst s'.
       destruct (juror_process_spec _ _ _ _ _ _ Ejp) as (js & js' & Hj & -> & Hc & Hm & Ha & Hg & Hji & Hgr).
-      eapply Inv_jur_update; eauto.
-      * apply Inv_set_late. done.
-      * apply Hji. eapply I1. exact Hj.
+      eapply Inv_jur_update; eauto; try (apply Inv_set_late; done).
     + destruct (bool_decide (vd = VNone)); [|discriminate]. inversion Hs; subst s'.
       apply Inv_set_late. done.
   - (* EProbe *)
     destruct (juror_process s 0 j key) as [[vd' s1]|] eqn:Ejp.
     + destruct (bool_decide (vd = vd')); [|discriminate]. inversion Hs; subst s'.
       destruct (juror_process_spec _ _ _ _ _ _ Ejp) as (js & js' & Hj & -> & Hc & Hm & Ha & Hg & Hji & Hgr).
-      eapply Inv_jur_update; eauto. apply Hji. eapply I1. exact Hj.
+      eapply Inv_jur_update; eauto.
     + destruct (bool_decide (vd = VNone)); [|discriminate]. inversion Hs; subst s'. done.
   - (* EREnd *)
     destruct (s_runs s !! r) as [rn|] eqn:Er; [|discriminate].
@@ -358,37 +406,272 @@ Proof.
                 | PhEnd x => Some x
                 | PhIdle => if bool_decide (r_rounds rn = j_max ms) then Some 1 else None
                 | _ => None end) in Hs.
+    assert (Hres0 : res = Some 0 -> r_phase rn = PhEnd 0).
+    { subst res. destruct (r_phase rn) as [| |y|y l]; try discriminate.
+      - destruct (bool_decide (r_rounds rn = j_max ms)); discriminate.
+      - intros E. inversion E. done. }
+    assert (Hph : forall y l, r_phase rn <> PhDone y l).
+    { intros y l Hp. subst res. rewrite Hp in Hs. discriminate. }
     destruct res as [x|] eqn:Eres; [|discriminate].
     destruct (bool_decide (key = r_prop rn)) eqn:E1; [|discriminate].
     destruct (bool_decide (ck = j_ck ms)) eqn:E2; [|discriminate].
     destruct (err_matches x err); [|discriminate]. simpl in Hs.
     apply bool_decide_eq_true in E1. apply bool_decide_eq_true in E2. subst key ck.
-    destruct (I2 r rn Er) as (H1 & H2 & H3 & H4 & H5 & H6 & H7).
     set (rn' := Run (r_pledge rn) (r_member rn) (r_prop rn) (r_base rn) (r_rounds rn) (r_snap rn) (r_asked rn) (PhDone x lost)) in *.
-    assert (Hph : forall y l, r_phase rn <> PhDone y l).
-    { intros y l Hp. subst res. rewrite Hp in Eres. discriminate. }
     assert (HI1 : Inv (set_run s r rn')).
     { apply Inv_run_update; auto.
-      - unfold run_inv, quorum_of, admitted_run; subst rn'; simpl. repeat split; auto.
-        + apply H4. unfold admitted_run. subst res.
-          destruct (r_phase rn) as [| |y|y l]; try discriminate.
-          * destruct (bool_decide (r_rounds rn = j_max ms)); [|discriminate].
-            inversion Eres; subst x. destruct H as [H _] || idtac. simpl in *. discriminate.
-          * inversion Eres; subst y. destruct x as [|[]]; simpl in *; auto.
-        + apply H4. unfold admitted_run. subst res.
-          destruct (r_phase rn) as [| |y|y l]; try discriminate.
-          * destruct (bool_decide (r_rounds rn = j_max ms)); [|discriminate].
-            inversion Eres; subst x. simpl in *. discriminate.
-          * inversion Eres; subst y. destruct x as [|[]]; simpl in *; auto.
-        + intros _. subst res. destruct (r_phase rn) as [| |y|y l] eqn:Ep; try discriminate.
-          * destruct (bool_decide (r_rounds rn = j_max ms)) eqn:Eb; [|discriminate].
-            inversion Eres; subst x. clear Eres.
-            (* gave up from PhIdle after at least ... rounds: prop may still be 0 only if j_max = 0 *)
-            destruct H5 as [H5|H5]; [|lia].
-            (* r_prop = 0 *)
-            exfalso. revert H5. admit.
-          * apply H6. discriminate.
+      - apply run_inv_done; auto. intros ->. auto.
       - intros rn0 Hr0 y l. rewrite Er in Hr0. inversion Hr0; subst. apply Hph. }
-    admit.
-  - admit.
-Admitted.
+    destruct (bool_decide (x = 0) && negb lost && bool_decide (p_result (pl_of s (r_pledge rn)) = None)) eqn:Eb;
+      inversion Hs; subst s'; [|exact HI1].
+    apply andb_true_iff in Eb. destruct Eb as [Eb _]. apply andb_true_iff in Eb. destruct Eb as [Ex El].
+    apply bool_decide_eq_true in Ex. subst x. destruct lost; [discriminate|].
+    apply Inv_pl_update; auto.
+    intros k c Hkc. simpl in Hkc. inversion Hkc; subst k c.
+    exists r, rn', ms. simpl. rewrite lookup_insert. repeat split; auto.
+  - (* EPEnd *)
+    destruct (p_done (pl_of s p)) eqn:Ed; [discriminate|].
+    destruct (p_result (pl_of s p)) as [[k c]|] eqn:Ep.
+    + destruct (ok && bool_decide (key = k) && bool_decide (ck = c)); [|discriminate].
+      destruct (s_jur s !! p) eqn:Ej; [discriminate|]. inversion Hs; subst s'.
+      apply Inv_jur_add; simpl; auto.
+      * apply Inv_pl_update; auto. intros k' c' Hkc. simpl in Hkc.
+        apply (pl_of_inv s p HI). rewrite Ep. done.
+      * split; simpl; [intros x Hx; inversion Hx|constructor].
+    + destruct (negb ok); [|discriminate]. inversion Hs; subst s'.
+      apply Inv_pl_update; auto. intros k' c' Hkc. simpl in Hkc. discriminate.
+Qed.
+
+
+(* ---- reachability ---- *)
+Definition reachable (pmax : N -> nat) (ms : list member_cfg) (s : state) : Prop :=
+  exists tr, exec pmax (init ms) tr = Some s.
+
+Lemma Inv_init ms : Inv (init ms).
+Proof.
+  split; simpl.
+  - intros j js Hj. apply elem_of_list_to_map_2 in Hj.
+    apply elem_of_list_fmap in Hj. destruct Hj as (m & E & _). inversion E; subst.
+    split; simpl; [intros x Hx; inversion Hx|constructor].
+  - intros r rn Hr. rewrite lookup_empty in Hr. discriminate.
+  - intros p ps Hp. rewrite lookup_empty in Hp. discriminate.
+Qed.
+
+Lemma exec_preserves pmax tr : forall s s', Inv s -> exec pmax s tr = Some s' -> Inv s'.
+Proof.
+  induction tr as [|e tr IH]; simpl; intros s s' HI He.
+  - inversion He; subst. done.
+  - destruct (step pmax s e) as [s1|] eqn:Es; [|discriminate].
+    eapply IH; [|exact He]. eapply step_preserves; eauto.
+Qed.
+
+Lemma reachable_Inv pmax ms s : reachable pmax ms s -> Inv s.
+Proof. intros (tr & He). eapply exec_preserves; [apply Inv_init|exact He]. Qed.
+
+Lemma exec_app pmax tr1 : forall tr2 s,
+  exec pmax s (tr1 ++ tr2) = match exec pmax s tr1 with Some s1 => exec pmax s1 tr2 | None => None end.
+Proof.
+  induction tr1 as [|e tr1 IH]; simpl; intros tr2 s; [done|].
+  destruct (step pmax s e); [apply IH|done].
+Qed.
+
+(* ---- the property, on invariant states ---- *)
+Lemma all_ok_true asked j : all_ok asked = true -> j ∈ map fst asked -> (j, true) ∈ asked.
+Proof.
+  unfold all_ok. intros Ha Hj. apply elem_of_list_fmap in Hj. destruct Hj as ([j' b] & -> & Hin).
+  rewrite forallb_forall in Ha. specialize (Ha (j', b)). simpl in *.
+  assert (E : b = true) by (apply Ha, elem_of_list_In, Hin). subst b. done.
+Qed.
+
+(* a run that admits has consulted a full majority quorum of its snapshot's active
+   members, all of them healthy candidates, all distinct, and every one of them has
+   returned an approval of exactly that key to exactly that run *)
+Lemma admit_needs_full_quorum s r rn :
+  Inv s -> s_runs s !! r = Some rn -> admitted_run rn = true ->
+  NoDup (quorum_of rn) /\
+  length (quorum_of rn) = qsize (r_snap rn) /\
+  (forall j, j ∈ quorum_of rn ->
+      j ∈ map vaddr (healthy (r_snap rn)) /\ granted_to s j r (r_prop rn)).
+Proof.
+  intros HI Hr Ha. destruct (inv_run s HI r rn Hr) as (H1 & H2 & H3 & H4 & H5 & H6 & H7).
+  destruct (H4 Ha) as [Hl Hok]. split; [done|]. split.
+  - unfold quorum_of. rewrite map_length. done.
+  - intros j Hj. split; [auto|]. apply H3. apply all_ok_true; auto.
+Qed.
+
+(* every approval in the quorum was given by a juror whose highest known key was below
+   the key, and the key is above every key of the coordinator's first snapshot *)
+Lemma admitted_key_fresh s r rn :
+  Inv s -> s_runs s !! r = Some rn -> admitted_run rn = true ->
+  r_base rn < r_prop rn /\
+  forall j, j ∈ quorum_of rn ->
+    exists js m, s_jur s !! j = Some js /\ (r, r_prop rn, m) ∈ j_granted js /\ m < r_prop rn /\
+                 r_prop rn ∈ j_appr js.
+Proof.
+  intros HI Hr Ha. destruct (inv_run s HI r rn Hr) as (H1 & H2 & H3 & H4 & H5 & H6 & H7).
+  split.
+  - destruct H5 as [H5|H5]; [|done]. exfalso. apply H6; auto.
+  - intros j Hj. destruct (admit_needs_full_quorum s r rn HI Hr Ha) as (_ & _ & Hq).
+    destruct (Hq j Hj) as [_ (js & m & Hjs & Hin)].
+    exists js, m. split; [done|]. split; [done|].
+    destruct (inv_jur s HI j js Hjs) as [J1 _]. destruct (J1 _ Hin) as [Hap Hlt]. simpl in *. auto.
+Qed.
+
+(* two different admitting runs whose quorums share a juror cannot have the same key:
+   the shared juror would have approved the key twice *)
+Lemma unique_under_intersection s r1 r2 rn1 rn2 :
+  Inv s -> s_runs s !! r1 = Some rn1 -> s_runs s !! r2 = Some rn2 -> r1 <> r2 ->
+  admitted_run rn1 = true -> admitted_run rn2 = true ->
+  (exists j, j ∈ quorum_of rn1 /\ j ∈ quorum_of rn2) ->
+  r_prop rn1 <> r_prop rn2.
+Proof.
+  intros HI Hr1 Hr2 Hne Ha1 Ha2 (j & Hj1 & Hj2) Heq.
+  destruct (admit_needs_full_quorum s r1 rn1 HI Hr1 Ha1) as (_ & _ & Hq1).
+  destruct (admit_needs_full_quorum s r2 rn2 HI Hr2 Ha2) as (_ & _ & Hq2).
+  destruct (Hq1 j Hj1) as [_ (js & m1 & Hjs & Hin1)].
+  destruct (Hq2 j Hj2) as [_ (js' & m2 & Hjs' & Hin2)].
+  rewrite Hjs in Hjs'. inversion Hjs'; subst js'.
+  destruct (inv_jur s HI j js Hjs) as [_ J2].
+  assert (E : (r1, r_prop rn1, m1) = (r2, r_prop rn2, m2)).
+  { eapply (NoDup_fmap_inj_on gkey); eauto. }
+  inversion E. done.
+Qed.
+
+Lemma unique_partial s r1 r2 rn1 rn2 :
+  Inv s -> s_runs s !! r1 = Some rn1 -> s_runs s !! r2 = Some rn2 -> r1 <> r2 ->
+  admitted_run rn1 = true -> admitted_run rn2 = true ->
+  compat (r_snap rn1) (r_snap rn2) ->
+  r_prop rn1 <> r_prop rn2.
+Proof.
+  intros HI Hr1 Hr2 Hne Ha1 Ha2 Hc.
+  eapply unique_under_intersection; eauto.
+  destruct (admit_needs_full_quorum s r1 rn1 HI Hr1 Ha1) as (N1 & L1 & Q1).
+  destruct (admit_needs_full_quorum s r2 rn2 HI Hr2 Ha2) as (N2 & L2 & Q2).
+  eapply quorums_intersect; eauto.
+  - intros j Hj. apply Q1. done.
+  - intros j Hj. apply Q2. done.
+Qed.
+
+(* the pledge level: a key reaches a pledging node only from a run of its own that
+   admitted it, and with that run's coordinator's cluster key *)
+Lemma pledge_result_from_admitted_run s p ps k c :
+  Inv s -> s_pl s !! p = Some ps -> p_result ps = Some (k, c) ->
+  exists r rn js, s_runs s !! r = Some rn /\ r_pledge rn = p /\ admitted_run rn = true /\
+                  r_prop rn = k /\ s_jur s !! r_member rn = Some js /\ j_ck js = c.
+Proof.
+  intros HI Hp Hr. destruct (inv_pl s HI p ps Hp k c Hr) as (r & rn & js & H1 & H2 & H3 & H4 & H5 & H6).
+  exists r, rn, js. repeat split; auto. unfold admitted_run. rewrite H3. done.
+Qed.
+
+Lemma pledge_keys_unique_partial s p1 p2 ps1 ps2 k1 c1 k2 c2 :
+  Inv s -> p1 <> p2 ->
+  s_pl s !! p1 = Some ps1 -> p_result ps1 = Some (k1, c1) ->
+  s_pl s !! p2 = Some ps2 -> p_result ps2 = Some (k2, c2) ->
+  (forall r1 r2 rn1 rn2, s_runs s !! r1 = Some rn1 -> s_runs s !! r2 = Some rn2 ->
+     admitted_run rn1 = true -> admitted_run rn2 = true -> r_pledge rn1 = p1 -> r_pledge rn2 = p2 ->
+     compat (r_snap rn1) (r_snap rn2)) ->
+  k1 <> k2.
+Proof.
+  intros HI Hne H1 R1 H2 R2 Hc.
+  destruct (pledge_result_from_admitted_run s p1 ps1 k1 c1 HI H1 R1) as (r1 & rn1 & js1 & A1 & A2 & A3 & A4 & _).
+  destruct (pledge_result_from_admitted_run s p2 ps2 k2 c2 HI H2 R2) as (r2 & rn2 & js2 & B1 & B2 & B3 & B4 & _).
+  subst k1 k2. eapply (unique_partial s r1 r2); eauto.
+  intros ->. rewrite A1 in B1. inversion B1; subst. congruence.
+Qed.
+
+(* where the jurors of the successor state come from *)
+Lemma step_jur_origin pmax s e s' j js' :
+  step pmax s e = Some s' -> s_jur s' !! j = Some js' ->
+  (exists js, s_jur s !! j = Some js /\ j_ck js = j_ck js') \/
+  (exists k, p_result (pl_of s j) = Some (k, j_ck js')).
+Proof.
+  intros Hs Hj.
+  assert (Hset : forall s0 i x, s_jur s0 = s_jur s ->
+            (forall y, s_jur s !! i = Some y -> j_ck y = j_ck x) -> is_Some (s_jur s !! i) ->
+            s_jur (set_jur s0 i x) !! j = Some js' ->
+            exists js, s_jur s !! j = Some js /\ j_ck js = j_ck js').
+  { intros s0 i x E Hck [y Hy] Hl. simpl in Hl. rewrite E in Hl.
+    destruct (decide (j = i)) as [->|Hne].
+    - rewrite lookup_insert in Hl. inversion Hl; subst. eauto.
+    - rewrite lookup_insert_ne in Hl by done. eauto. }
+  assert (Hjp : forall s0 r i key vd0 s1, s_jur s0 = s_jur s ->
+            juror_process s0 r i key = Some (vd0, s1) -> s_jur s1 !! j = Some js' ->
+            exists js, s_jur s !! j = Some js /\ j_ck js = j_ck js').
+  { intros s0 r i key vd0 s1 E Hp Hl.
+    destruct (juror_process_spec _ _ _ _ _ _ Hp) as (js & js2 & Hi & -> & Hc & _).
+    rewrite E in Hi. eapply (Hset s0 i js2); eauto. intros y Hy. congruence. }
+  destruct e as [a v|p a r|p a|r v|r i key how vd|r i key vd|i key vd|r key ck err lost|p ok key ck];
+    simpl in Hs.
+  - inversion Hs; subst; simpl in *. left. eauto.
+  - repeat case_match; simplify_eq; simpl in *; left; eauto.
+  - repeat case_match; simplify_eq; simpl in *; left; eauto.
+  - repeat case_match; simplify_eq; simpl in *; left; eauto.
+  - left. unfold record_answer in Hs.
+    destruct (s_runs s !! r) as [rn|]; [|discriminate].
+    destruct (_ && _ && _ && _); [|discriminate].
+    destruct (bool_decide (how = 0) || bool_decide (how = 2)).
+    { destruct (juror_process s r i key) as [[vd' s1]|] eqn:Ejp; [|discriminate].
+      destruct (bool_decide (vd = vd')); [|discriminate]. inversion Hs; subst s'. simpl in Hj.
+      eapply Hjp; eauto. }
+    destruct (bool_decide (how = 1)). { inversion Hs; subst s'. simpl in Hj. eauto. }
+    destruct (bool_decide (how = 3)).
+    { destruct (s_jur s !! i); [|discriminate]. destruct (bool_decide (vd = VCtx)); [|discriminate].
+      inversion Hs; subst s'. simpl in Hj. eauto. }
+    destruct (bool_decide (how = 4)); [|discriminate]. inversion Hs; subst s'. simpl in Hj. eauto.
+  - left. destruct (remove_first (r, i, key) (s_late s)) as [l'|]; [|discriminate].
+    destruct (juror_process (set_late s l') r i key) as [[vd' s1]|] eqn:Ejp.
+    + destruct (bool_decide (vd = vd')); [|discriminate]. inversion Hs; subst s'.
+      eapply Hjp; [|exact Ejp|exact Hj]. done.
+    + destruct (bool_decide (vd = VNone)); [|discriminate]. inversion Hs; subst s'. simpl in Hj. eauto.
+  - left. destruct (juror_process s 0 i key) as [[vd' s1]|] eqn:Ejp.
+    + destruct (bool_decide (vd = vd')); [|discriminate]. inversion Hs; subst s'.
+      eapply Hjp; [|exact Ejp|exact Hj]. done.
+    + destruct (bool_decide (vd = VNone)); [|discriminate]. inversion Hs; subst s'. eauto.
+  - left. repeat case_match; simplify_eq; simpl in *; eauto.
+  - destruct (p_done (pl_of s p)); [discriminate|].
+    destruct (p_result (pl_of s p)) as [[k c]|] eqn:Ep.
+    + destruct (ok && bool_decide (key = k) && bool_decide (ck = c)); [|discriminate].
+      destruct (s_jur s !! p) eqn:Ej; [discriminate|]. inversion Hs; subst s'. simpl in Hj.
+      destruct (decide (j = p)) as [->|Hne].
+      * rewrite lookup_insert in Hj. inversion Hj; subst. simpl. right. eauto.
+      * rewrite lookup_insert_ne in Hj by done. left. eauto.
+    + destruct (negb ok); [|discriminate]. inversion Hs; subst s'. simpl in Hj. left. eauto.
+Qed.
+
+(* cluster key: if every initial member is configured with ck0 then every arbitrating
+   node and every response carries ck0 *)
+Definition ck_inv (ck0 : N) (s : state) : Prop :=
+  (forall j js, s_jur s !! j = Some js -> j_ck js = ck0) /\
+  (forall p ps k c, s_pl s !! p = Some ps -> p_result ps = Some (k, c) -> c = ck0).
+
+Lemma step_ck pmax ck0 s e s' : Inv s -> ck_inv ck0 s -> step pmax s e = Some s' -> ck_inv ck0 s'.
+Proof.
+  intros HI [C1 C2] Hs.
+  assert (HI' : Inv s') by (eapply step_preserves; eauto).
+  assert (Hall : forall j js, s_jur s' !! j = Some js -> j_ck js = ck0).
+  { intros j js' Hj. destruct (step_jur_origin _ _ _ _ _ _ Hs Hj) as [(js & Hjs & E)|(k & Hk)].
+    - rewrite <- E. eauto.
+    - unfold pl_of in Hk. destruct (s_pl s !! j) as [ps|] eqn:Ep; simpl in Hk; [|discriminate].
+      eapply C2; eauto. }
+  split; [exact Hall|].
+  intros p ps k c Hp Hr.
+  destruct (pledge_result_from_admitted_run s' p ps k c HI' Hp Hr) as (r & rn & js & _ & _ & _ & _ & Hj & Hc).
+  subst c. eauto.
+Qed.
+
+Lemma exec_ck pmax ck0 tr : forall s s', Inv s -> ck_inv ck0 s -> exec pmax s tr = Some s' -> ck_inv ck0 s'.
+Proof.
+  induction tr as [|e tr IH]; simpl; intros s s' HI HC He.
+  - inversion He; subst. done.
+  - destruct (step pmax s e) as [s1|] eqn:Es; [|discriminate].
+    eapply IH; [| |exact He]; [eapply step_preserves|eapply step_ck]; eauto.
+Qed.
+
+Lemma ck_inv_init ck0 ms : Forall (fun m : member_cfg => m.1.1.2 = ck0) ms -> ck_inv ck0 (init ms).
+Proof.
+  intros Hall. split; simpl.
+  - intros j js Hj. apply elem_of_list_to_map_2 in Hj.
+    apply elem_of_list_fmap in Hj. destruct Hj as (m & E & Hin). inversion E; subst. simpl.
+    rewrite Forall_forall in Hall. apply Hall. done.
+  - intros p ps k c Hp. rewrite lookup_empty in Hp. discriminate.
+Qed.
